@@ -18,7 +18,7 @@ func init() {
 		Explanation: "(R1, cutoff writer) with cutoff 0 nothing is forwarded and len(buffer) is reported; otherwise the downstream write receives the whole buffer only under len(buffer) ≤ cutoff, else buffer[:cutoff]; after EVERY downstream write the cutoff is reduced by the count that write returned (not by the requested length); results: the downstream result for a whole-buffer write, (written, err) on a downstream error, (len(buffer), nil) after a successful truncated write; " +
 			"(R2, line splitter) trimCarriageReturn drops the last byte exactly under «len > 0 ∧ last byte = CR»; LineProcessor.Write appends all data, repeatedly finds the first '\\n' in the remainder, hands string(trimCarriageReturn(remainder[:i])) to the callback, advances by i+1 (consumed count and remainder alike), stops when none is found, then keeps exactly the unconsumed suffix (copy + reslice to len−consumed) and reports len(data); " +
 			"(R3, hashing writer) the hasher receives data[:n] where n is the count the downstream write returned, and (n, err) of that write is returned; " +
-			"(R4, preemptable writer) every downstream write is preceded by the counter test; when the counter equals the interval a non-blocking receive on the cancellation channel decides: cancelled → (0, ErrWritePreempted) without writing, otherwise the counter restarts at 0; in the other branch the counter is incremented by exactly 1 — so at most «interval» writes separate two checks; " +
+			"(R4, preemptable writer) every downstream write is preceded by the counter test; when the counter equals the interval a non-blocking receive on the cancellation channel decides: cancelled → (0, ErrWritePreempted) without writing, otherwise the counter restarts at 0; in the other branch the counter is incremented by exactly 1 — so at most «interval» writes separate two checks; the counter is not touched on the way to a refusal, so once preempted every later write polls and is refused too; " +
 			"(R5, valve) Write and Shut hold the valve's lock; Write forwards to the writer unless it is nil, in which case it reports len(buffer) without writing; Shut stores nil; " +
 			"(R6, multi-closer) Close calls Close on every element of the list (the call is unconditional in the loop body and the loop has no other exit), keeps an error only when it is non-nil and none was kept before, and returns the kept error. " +
 			"Not decided: timing of preemption in wall-clock terms; downstream writers' own contracts.",
